@@ -83,6 +83,13 @@ def run(ctx, prop):
     if "Invariant OldNoCrashNoOverAlloc is violated" not in out:
         raise MachineryError("self-test failed: the pre-fix rows of Hostile.tla no longer violate NoCrashNoOverAlloc")
     ctx.extra["model_rows_x_magnitudes"] = 12 * 24
+    # the same rows over the integers, for every 64-bit value and every parameter up to 2^22 (symbolic, Apalache), and the
+    # agreement of the anchored rows with them on every anchored value
+    ctx.apalache("HostileInt.tla", "HInit", "HNext", ["IntSafe", "AbstractionExact"])
+    ctx.extra["symbolic"] = "HostileInt.tla: IntSafe and AbstractionExact hold for all v in 0..2^64-1, parameters in 1..2^22 (Apalache, length 0)"
+    if ctx.tier == "thorough":
+        for w in ("OldIntSafe1", "OldIntSafe2", "OldIntSafe3"):
+            ctx.apalache("HostileInt.tla", "HInit", "HNext", [w], expect_error=True)
     d = os.path.join(ctx.tmp, "hostile")
     os.makedirs(d, exist_ok=True)
     trace = os.path.join(ctx.tmp, "hostile.ndjson")
